@@ -59,6 +59,8 @@ var fragments = []string{
 	"\u2028", "\u2029", "\ufeff", "\ufffd", "\uff1cscript\uff1e", "\u202e", "\u00e9", "\u65e5\u672c\u8a9e", "\U0001F600", "\u0000",
 	"`", "=", "\\", "\\\"", "\\u003c", "/", "//evil.example", "javascript:alert(1)", "data:text/html,<script>",
 	"{{.}}", "{{template \"x\"}}", "%3Cscript%3E", "%00", "%", "\"", "'", "<", ">", "<<", ">>", "< script>", "<\x00script>",
+	"{\"error\":\"x\"} (idp)", "{\"a\":1}{", "{}}", "{}", "[]", "[1,2", "{\"a\":", "null x", "null", "true]", "false", "123 <b>", "-1.5e3", "0",
+	"\"str\\u003cb\\u003e\" tail", "\"s\"", " \t\n{\"a\":[1,2,{\"b\":null}]} x", "\ufeff{\"a\":1}", "{\"error\":{\"x\":\"<script>\"}}<script>", "{\"a\":1}\n{\"b\":2}",
 	"x", "Bob", "user@example.com", "Permission Denied", "403", "",
 }
 
@@ -320,9 +322,7 @@ func buildAuth(domains []string) *authWorld {
 
 func (a *authWorld) do(req *http.Request) *httptest.ResponseRecorder {
 	a.last, a.lastN = nil, ""
-	rec := httptest.NewRecorder()
-	a.h.ServeHTTP(rec, req)
-	return rec
+	return wireOf(a.h).roundTrip(req)
 }
 
 // newReq builds the request a server would hand to the handler; ok=false when net/http itself
@@ -360,16 +360,21 @@ func (w *world) render(svc int, page string, data interface{}) string {
 }
 
 func (w *world) pageCase(svc int, page string, data interface{}, real string, via int, how string) {
-	w.pageCaseB(svc, page, data, real, w.render(svc, page, benignOf(data)), via, how)
+	w.pageCaseB(svc, page, data, "text/html; charset=utf-8", real, w.render(svc, page, benignOf(data)), via, how, nil, nil)
+}
+
+// pageCaseCT: a page observed over the wire, with the Content-Type that was sent.
+func (w *world) pageCaseCT(svc int, page string, data interface{}, rec *httptest.ResponseRecorder, how string) {
+	w.pageCaseB(svc, page, data, rec.Header().Get("Content-Type"), rec.Body.String(), w.render(svc, page, benignOf(data)), 1, how, nil, nil)
 }
 
 // pageCaseB: the benign body is given (the same call site reached with benign inputs).
-func (w *world) pageCaseB(svc int, page string, data interface{}, real, benign string, via int, how string) {
+func (w *world) pageCaseB(svc int, page string, data interface{}, ctype, real, benign string, via int, how string, vars []string, varNames []string) {
 	fs := fieldsOf(data)
-	coq := fmt.Sprintf("CPage %d %s %s\n %s\n %s %d", svc, bs(page), coqData(fs), bs(real), recipe(real, benign), via)
+	coq := fmt.Sprintf("CPage %d %s %s %s\n %s\n %s %d %s", svc, bs(page), coqData(fs), ctCoq(ctype), bs(real), recipe(real, benign), via, c.List(vars))
 	w.cases = append(w.cases, c.Case{Coq: coq, JSON: map[string]interface{}{
 		"kind": "page", "service": []string{"sso-proxy", "sso-auth"}[svc], "page": page, "how": how,
-		"data": jsonFields(fs), "body_len": len(real)}})
+		"data": jsonFields(fs), "content_type": ctype, "body_len": len(real), "combinations": varNames}})
 	w.nPages++
 }
 
@@ -480,9 +485,12 @@ func (w *world) proxyCallback(payload string) {
 	if !ok {
 		return
 	}
-	rec := w.proxyW.Do(req)
+	rec := wireOf(w.proxyW.Handler).roundTrip(req)
+	if rec == nil {
+		return
+	}
 	// OAuthCallback: ErrorPage(403, "Permission Denied", req.Form.Get("error"))  (oauthproxy.go:407-412)
-	w.pageCase(0, "error.html", errData{Code: rec.Code, Title: "Permission Denied", Message: payload}, rec.Body.String(), 1,
+	w.pageCaseCT(0, "error.html", errData{Code: rec.Code, Title: "Permission Denied", Message: payload}, rec,
 		"GET /oauth2/callback?error=<payload> on the real proxy")
 }
 
@@ -493,18 +501,27 @@ func (w *world) proxyXHR(payload string) {
 		return
 	}
 	req.Header.Set("X-Requested-With", "XMLHttpRequest")
-	rec := w.proxyW.Do(req)
-	w.jsonCase(0, payload, rec.Body.String(), rec.Header().Get("Content-Type"))
+	rec := wireOf(w.proxyW.Handler).roundTrip(req)
+	if rec == nil {
+		return
+	}
+	benign := ""
+	if reqB, ok := newReq("GET", proxyHost, "/oauth2/callback?error=benign"); ok {
+		reqB.Header.Set("X-Requested-With", "XMLHttpRequest")
+		if recB := wireOf(w.proxyW.Handler).roundTrip(reqB); recB != nil {
+			benign = recB.Body.String()
+		}
+	}
+	w.jsonCase(0, payload, rec.Body.String(), rec.Header().Get("Content-Type"), benign)
 }
 
-func (w *world) jsonCase(svc int, msg, body, ctype string) {
-	if ctype != "application/json" {
-		body = "<<content-type " + ctype + ">>" + body
-	}
+// jsonCase: a response the model says is the JSON error body; [benign] is the body of the benign
+// run of the same request (reference for the skeleton clause should the body be served as markup).
+func (w *world) jsonCase(svc int, msg, body, ctype, benign string) {
 	w.cases = append(w.cases, c.Case{
-		Coq: fmt.Sprintf("CJson %d %s %s", svc, bs(msg), bs(body)),
+		Coq: fmt.Sprintf("CJson %d %s %s %s %s", svc, bs(msg), ctCoq(ctype), bs(body), recipe(body, benign)),
 		JSON: map[string]interface{}{"kind": "json", "service": []string{"sso-proxy", "sso-auth"}[svc],
-			"message": fmt.Sprintf("%q", msg), "body": fmt.Sprintf("%q", body)}})
+			"message": fmt.Sprintf("%q", msg), "content_type": ctype, "body": fmt.Sprintf("%q", body)}})
 	w.nJSON++
 }
 
@@ -517,14 +534,27 @@ func (w *world) authCallback(a *authWorld, payload string, asJSON bool) {
 	if asJSON {
 		req.Header.Set("Accept", "application/json")
 		rec := a.do(req)
-		w.jsonCase(1, payload, rec.Body.String(), rec.Header().Get("Content-Type"))
+		if rec == nil {
+			return
+		}
+		benign := ""
+		if reqB, ok := newReq("GET", authHost, "/test/callback?error=benign"); ok {
+			reqB.Header.Set("Accept", "application/json")
+			if recB := a.do(reqB); recB != nil {
+				benign = recB.Body.String()
+			}
+		}
+		w.jsonCase(1, payload, rec.Body.String(), rec.Header().Get("Content-Type"), benign)
 		return
 	}
 	rec := a.do(req)
+	if rec == nil {
+		return
+	}
 	if a.last == nil {
 		c.Must(fmt.Errorf("auth callback rendered no template (status %d)", rec.Code))
 	}
-	w.pageCase(1, a.lastN, a.last, rec.Body.String(), 1, "GET /test/callback?error=<payload> on the real authenticator")
+	w.pageCaseCT(1, a.lastN, a.last, rec, "GET /test/callback?error=<payload> on the real authenticator")
 }
 
 // withMethods: "method <req.Method> not allowed" (middleware.go:41-47); net/http only lets token
@@ -535,10 +565,10 @@ func (w *world) authMethod(a *authWorld, method string) {
 		return
 	}
 	rec := a.do(req)
-	if a.last == nil {
+	if rec == nil || a.last == nil {
 		return
 	}
-	w.pageCase(1, a.lastN, a.last, rec.Body.String(), 1, "unexpected method on /test/start on the real authenticator")
+	w.pageCaseCT(1, a.lastN, a.last, rec, "unexpected method on /test/start on the real authenticator")
 }
 
 // characters net/http and net/url let through raw in a request target's query / a URL host
@@ -578,13 +608,16 @@ func (w *world) authSignIn(a *authWorld, hostLabel, rawExtra, escExtra string, m
 		return
 	}
 	rec := a.do(req)
+	if rec == nil {
+		return
+	}
 	if mustReach && (a.last == nil || a.lastN != "sign_in.html") {
 		c.Must(fmt.Errorf("sign_in did not render the sign-in page: status %d template %q query %q", rec.Code, a.lastN, q))
 	}
 	if a.last == nil { // answered without a page (redirect): nothing to observe
 		return
 	}
-	w.pageCase(1, a.lastN, a.last, rec.Body.String(), 1, "GET /test/sign_in (no session) on the real authenticator")
+	w.pageCaseCT(1, a.lastN, a.last, rec, "GET /test/sign_in (no session) on the real authenticator")
 }
 
 func jsonRoundTrip(s string) string {
@@ -626,13 +659,16 @@ func (w *world) authSignOut(a *authWorld, r *c.Rng, hostLabel, pathPayload, emai
 	}
 	req.AddCookie(&http.Cookie{Name: "_sso_auth_test", Value: sealed})
 	rec := a.do(req)
+	if rec == nil {
+		return
+	}
 	if mustReach && (a.last == nil || a.lastN != "sign_out.html") {
 		c.Must(fmt.Errorf("sign_out did not render the sign-out page: status %d template %q query %q", rec.Code, a.lastN, q))
 	}
 	if a.last == nil {
 		return
 	}
-	w.pageCase(1, a.lastN, a.last, rec.Body.String(), 1, "GET /test/sign_out with a sealed session on the real authenticator")
+	w.pageCaseCT(1, a.lastN, a.last, rec, "GET /test/sign_out with a sealed session on the real authenticator")
 }
 
 // --- the real template sets executed directly, payloads in every field ---
@@ -779,6 +815,7 @@ func main() {
 
 	fake := c.NewFakeAuth()
 	defer fake.Srv.Close()
+	defer closeWires()
 	yaml := "- service: svc\n  default:\n    from: " + proxyHost + "\n    to: 127.0.0.1:9\n    options:\n      allowed_email_domains: [\"corp.test\"]\n"
 	pw, err := c.BuildProxy(c.ProxyOpts{YAML: yaml, Valid: time.Hour, Dir: dir}, fake)
 	c.Must(err)
